@@ -43,6 +43,44 @@ void harness(void)
 	V_COVER("everything consumed dropped", drop == in_curr && in_curr > 2 && !in_mlen);
 	V_CANARY();
 }
+#elif defined(UNIT_PEEK)
+/* mpt_queue_peek with a decoder: the decoder is offered (peek mode, source count 0) ONE fragment that lies inside the
+ * queue storage and starts at the logical position in front of the message window / input position; the queue and
+ * its bytes are not touched, the decoder offsets are restored. */
+static dq_t *g_q; static int g_calls, g_bad; static const uint8_t *g_fbase; static size_t g_flen;
+static int h_dec(MPT_STRUCT(decode_state) *st, const struct iovec *src, size_t n)
+{
+	(void) st; g_calls++;
+	if (n != 0) g_bad = 1;
+	g_fbase = src->iov_base; g_flen = src->iov_len;
+	return 0;
+}
+void harness(void)
+{
+	IN(size_t, in_max); IN(size_t, in_len); IN(size_t, in_off); IN(size_t, in_curr); IN(size_t, in_pos); IN(size_t, in_mlen); IN(size_t, in_k);
+	uint8_t in_content[CAP]; dq_t dq; size_t i, skip, phys; ssize_t r; uint8_t vk = 0;
+	V_FILL(in_content);
+	V_REQ(in_max >= 1 && in_max <= CAP && in_len <= in_max && in_off < in_max);
+	for (i = 0; i < CAP; i++) h_st[i] = in_content[i];
+	dq.data.base = h_st; dq.data.max = in_max; dq.data.len = in_len; dq.data.off = in_off; dq._dec = h_dec;
+	dq._state._ctx = 0; dq._state.curr = in_curr; dq._state.data.pos = in_pos; dq._state.data.len = in_mlen; dq._state.data.msg = -1;
+	V_REQ(D_WF(&dq._state, in_len));
+	g_q = &dq;
+	if (in_k < in_max) vk = h_st[in_k];
+	r = mpt_queue_peek(&dq, 0, 0);
+	skip = in_pos < in_curr ? in_pos : in_curr;
+	phys = in_off + skip >= in_max ? in_off + skip - in_max : in_off + skip;
+	V_CHECK("peek: an empty queue is reported without decoding", IMP(in_len == 0, r < 0 && g_calls == 0));
+	if (g_calls) {
+		V_CHECK("peek: decoder called once, in peek mode", g_calls == 1 && !g_bad);
+		V_CHECK("peek: the fragment offered lies inside the queue storage", g_fbase >= h_st && g_flen <= in_max && (size_t) (g_fbase - h_st) <= in_max - g_flen);
+		V_CHECK("peek: it starts at the logical position in front of the window and holds only queued bytes", (g_flen == 0 || g_fbase == h_st + phys) && g_flen <= in_len - skip);
+	}
+	V_CHECK("peek: queue and decoder offsets are what they were", dq.data.len == in_len && dq.data.off == in_off && dq.data.max == in_max && dq._state.curr == in_curr && dq._state.data.pos == in_pos && dq._state.data.len == in_mlen);
+	V_CHECK("peek: no queue byte is written", IMP(in_k < in_max, h_st[in_k] == vk));
+	V_COVER("wrapped content peeked", g_calls == 1 && in_off + in_len > in_max && g_flen > 0);
+	V_CANARY();
+}
 #else
 /* ---- decoder stand-in ---- */
 static dq_t *g_q; static int g_calls, g_bad, g_ret[2]; static size_t g_ncurr[2], g_npos[2], g_nlen[2]; static ssize_t g_nmsg[2];
